@@ -1,0 +1,36 @@
+//go:build verif
+// +build verif
+
+// Contracts for the deductive verifier in /verif (govc). Comment-only: no executable code.
+package clusters
+
+//@ func RuleMatches props C01
+//@   pure
+//@   ensures [spec] result == ruleMatch(*rule, requestAttributes)
+
+//@ func PolicyMatches props C01
+//@   pure
+//@   ensures [spec] result == policyMatch(*policy, requestAttributes)
+//@   loop 0: invariant [bounds] 0 <= idx && idx <= len(policy.Rules)
+//@   loop 0: invariant [none] forall k int :: {policy.Rules[k]} 0 <= k && k < idx ==> !ruleMatch(policy.Rules[k], requestAttributes)
+
+//@ func MatchPolicies props C01
+//@   pure
+//@   ensures [none] result == nil <==> forall i int :: {policies[i]} 0 <= i && i < len(policies) ==> !policyMatch(policies[i], requestAttributes)
+//@   ensures [first] result != nil ==> exists k int :: {policies[k]} 0 <= k && k < len(policies) && *result == policies[k] && policyMatch(policies[k], requestAttributes) && forall j int :: {policies[j]} 0 <= j && j < k ==> !policyMatch(policies[j], requestAttributes)
+//@   loop 0: invariant [bounds] 0 <= idx && idx <= len(policies)
+//@   loop 0: invariant [none] forall k int :: {policies[k]} 0 <= k && k < idx ==> !policyMatch(policies[k], requestAttributes)
+
+//@ const curPolicies = (typeis(c.currentDispatchPolicies.v, "[]proxyv1alpha1.DispatchPolicy") ? unbox(c.currentDispatchPolicies.v, "[]proxyv1alpha1.DispatchPolicy") : emptyseq("proxyv1alpha1.DispatchPolicy"))
+//@ const picked = unbox(result, "*endpointPickStrategy")
+
+//@ func (*ClusterInfo).MatchAttributes props C01
+//@   modifies *
+//@   ensures [no_match_err] result1 != nil <==> (forall i int :: {old(curPolicies)[i]} 0 <= i && i < len(old(curPolicies)) ==> !policyMatch(old(curPolicies)[i], requestAttributes))
+//@   ensures [no_match_val] result1 != nil ==> result1 == ErrNoRouterRuleMatches && result == nil
+//@   ensures [first_policy] result1 == nil ==> typeis(result, "*endpointPickStrategy") && exists k int :: {old(curPolicies)[k]} 0 <= k && k < len(old(curPolicies)) && policyMatch(old(curPolicies)[k], requestAttributes) && (forall j int :: {old(curPolicies)[j]} 0 <= j && j < k ==> !policyMatch(old(curPolicies)[j], requestAttributes)) && picked.cluster == c && picked.flowControlName == (len(old(curPolicies)[k].FlowControlSchemaName) == 0 ? "system-default" : old(curPolicies)[k].FlowControlSchemaName) && (len(old(curPolicies)[k].UpstreamSubset) != 0 ==> picked.upstreams == old(curPolicies)[k].UpstreamSubset)
+
+//@ func (*EndpointInfoMap).Names props C01, C03
+//@   trusted "sync.Map.Range with a closure is not modelled"
+//@   pure
+//@   ensures [keys] forall n string :: {has(result, n)} has(result, n) <==> smhas(&m.data, box(n))
